@@ -85,13 +85,13 @@ SeqsUpTo(n) == UNION { [1..k -> EmitCalls] : k \in 1..n }
 Emit(n) == JsonSerialize(IOEnv.CASES_OUT, SetToSeq({ [calls |-> cs, outs |-> RunSeq(InitState, cs)] : cs \in SeqsUpTo(n) }))
 
 \* ---- M3: traces recorded from the real object (calls with the observed, abstracted results) are behaviours of Step
-Traces(d) == JsonDeserialize(IOEnv.TRACE_FILE)
 SameOut(a, b) == a.kind = b.kind /\ (a.kind \in {"mock", "table"} => (a.ep = b.ep /\ a.tr = b.tr /\ a.rsd = b.rsd)) /\ (a.kind = "mock" => a.ncent = b.ncent)
 RECURSIVE FirstBad(_, _, _)
 FirstBad(s, t, i) == IF i > Len(t) THEN 0
                      ELSE LET r == Step(s, t[i].call) IN IF SameOut(r.out, t[i].out) THEN FirstBad(r.st, t, i + 1) ELSE i
-Rejected(d) == { k \in 1..Len(Traces(d)) : FirstBad(InitState, Traces(d)[k], 1) # 0 }
-AllAccepted(d) == LET bad == Rejected(d) IN
-                  IF bad = {} THEN TRUE
-                  ELSE PrintT(<<"REJECTED", [k \in bad |-> FirstBad(InitState, Traces(d)[k], 1)]>>) /\ FALSE
+AllAccepted(d) == LET traces == JsonDeserialize(IOEnv.TRACE_FILE)                 \* parsed once
+                      firstbad == [k \in 1..Len(traces) |-> FirstBad(InitState, traces[k], 1)]
+                      bad == { k \in 1..Len(traces) : firstbad[k] # 0 }
+                  IN IF bad = {} THEN TRUE
+                     ELSE PrintT(<<"REJECTED", [k \in bad |-> firstbad[k]]>>) /\ FALSE
 =========================================================================================
